@@ -29,6 +29,7 @@ type walkOpts struct {
 	Tune     func(g *gen)
 	EmitProb int // emit one of every EmitProb executed calls as a Coq case (1 = all)
 	MaxCases int
+	Hist     bool // also emit each world's whole history (and a prefix) as a Coq hcase replayed by Ledger/World.v
 }
 
 func histReplay(hist []string) map[string]interface{} {
@@ -58,11 +59,21 @@ func (c *ctx) walk(u *universe, o walkOpts) {
 			o.Tune(g)
 		}
 		var hist []string
+		var hrec *histRecorder
+		if o.Hist {
+			hrec = c.startHistory(w)
+		}
 		for i := 0; i < o.Ops; i++ {
 			op := g.randomOp()
 			pre := w.snap()
 			sr := w.step(op)
 			hist = append(hist, op.String())
+			if hrec != nil {
+				hrec.add(op)
+				if i+1 == 40 || i+1 == o.Ops {
+					c.emitHistory(hrec, w, fmt.Sprintf("history of world %d, first %d operations (seed %d)", wi, i+1, c.seed))
+				}
+			}
 			if sr.Skipped {
 				c.count("op/skipped")
 				continue
